@@ -1,6 +1,8 @@
 package main
 
 import (
+	"fmt"
+	"go/constant"
 	"golang.org/x/tools/go/ssa"
 )
 
@@ -164,4 +166,86 @@ func ruleLineFilterBuilder(r *Run) {
 			o.OK("all successful returns wrap %s(stage.Op, stage.Value, ...)", spec.matcher).At(r.pos(fn.Pos()))
 		}
 	}
+}
+
+// ruleIPScanStarts (FE-CLASS): the ip() line filter tries to read an address at every position
+// whose character can begin one: a decimal digit (IPv4, IPv6), a hex letter (IPv6 such as fe80::1)
+// or a colon (::1). Decided per character class on the paths of one scan step.
+func ruleIPScanStarts(r *Run) {
+	p := r.P
+	fn := p.Method(enginePkg, "IPLineFilter", "Process")
+	o := r.Ob("FE-CLASS", "logqlengine.(*IPLineFilter).Process scan starts", "an address capture is attempted at every position holding a digit, a hex letter or ':' (addresses may begin with any of them)")
+	if fn == nil || len(fn.Params) < 3 {
+		o.Fail("-", "method not found")
+		return
+	}
+	line := fn.Params[2]
+	// the scan loop and the character under the cursor
+	var ch ssa.Instruction
+	var chVal, chIndex ssa.Value
+	allInstrs(fn, func(in ssa.Instruction) {
+		switch x := in.(type) {
+		case *ssa.Lookup:
+			if x.X == ssa.Value(line) && !x.CommaOk {
+				ch, chVal, chIndex = x, x, x.Index
+			}
+		case *ssa.Index:
+			if x.X == ssa.Value(line) {
+				ch, chVal, chIndex = x, x, x.Index
+			}
+		}
+	})
+	if ch == nil {
+		o.Undecide(r.pos(fn.Pos()), "the character under the scan position (line[i]) was not found")
+		return
+	}
+	header := (*ssa.BasicBlock)(nil)
+	for _, b := range fn.Blocks {
+		for _, sc := range b.Succs {
+			if sc.Dominates(b) && naturalLoop(sc)[ch.Block()] {
+				header = sc
+			}
+		}
+	}
+	if header == nil {
+		o.Undecide(r.pos(fn.Pos()), "line[i] is not read inside a loop")
+		return
+	}
+	isCapture := func(c *feCall) bool {
+		callee := staticCallee(c.Call)
+		if callee == nil || callee.Blocks == nil || callee.Pkg != fn.Pkg {
+			return false
+		}
+		for _, a := range c.Args {
+			if sl, ok := a.V.(*ssa.Slice); ok && sl.X == ssa.Value(line) && sl.Low != nil && sl.Low == chIndex {
+				return true
+			}
+		}
+		return false
+	}
+	var miss []string
+	for _, c := range []rune{'0', '7', '9', 'a', 'f', 'A', 'F', ':'} {
+		w := &feWalker{Fn: fn, Assume: map[ssa.Value]constant.Value{chVal: constant.MakeInt64(int64(c))}, MaxPath: 5000}
+		var pre *ssa.BasicBlock
+		for _, pb := range ch.Block().Preds {
+			pre = pb
+		}
+		ends := w.RunFrom(ch.Block(), pre)
+		attempted := false
+		for _, e := range ends {
+			for i := range e.State.calls {
+				if isCapture(&e.State.calls[i]) {
+					attempted = true
+				}
+			}
+		}
+		if !attempted {
+			miss = append(miss, fmt.Sprintf("%q", c))
+		}
+	}
+	if len(miss) > 0 {
+		o.Fail(r.pos(ch.Pos()), "no address capture is attempted at a position holding %v: addresses beginning with such a character are never found", miss)
+		return
+	}
+	o.OK("capture attempted at digits, hex letters and ':'").At(r.pos(ch.Pos()))
 }
